@@ -21,6 +21,7 @@ RULE = ('from_sparse: exhaustive small scope (<= 2 spikes, <= 3 local columns, c
         'covariance). Non-trivial = at least one stored value lands in the output; distinct = distinct abstract input.')
 EXHAUSTIVE = {'quick': True, 'thorough': True}
 CLAUSES = {
+    30: 'C06_index_of (members of the lookup list are replaced by their positions)',
     1: 'observed output differs from the Coq model PV.C06.Model',
     21: 'C06_from_sparse (every cell is the stored value of that channel for that spike, else zero)',
     22: 'C06_from_sparse_shape (n_spikes, n_requested, trailing dims)',
@@ -222,6 +223,183 @@ def _pca(rng):
                                    'ids': ids, 'chans': chans, 'wdtype': rng.choice(['float32', 'float64'])}}
 
 
+def _request(rng, nspk, held, mode=None):
+    mode = mode or rng.choice(['stored', 'stored', 'any', 'any', 'all', 'empty', 'one'])
+    if mode == 'stored':
+        ids = rng.sample(held, rng.randint(1, len(held)))
+    elif mode == 'any':
+        ids = rng.sample(range(nspk), rng.randint(1, nspk))
+    elif mode == 'all':
+        ids = list(range(nspk))
+        if rng.random() < 0.5:
+            rng.shuffle(ids)
+    elif mode == 'empty':
+        ids = []
+    else:
+        ids = [rng.randrange(nspk)]
+    return ids
+
+
+def _hist(rng, both_subset=None, have=None):
+    """One model object, a pc-feature store and/or a template-feature store (each with or without its own
+    spike-id table: the two tables are drawn independently, so they differ), several calls of the two
+    accessors in any order with different requests."""
+    nt, nspk, nc = rng.randint(2, 4), rng.randint(4, 10), rng.randint(3, 6)
+    if both_subset is None:
+        both_subset = rng.random() < 0.6
+    sub_f = True if both_subset else rng.random() < 0.5
+    sub_t = True if both_subset else rng.random() < 0.5
+    f = _store(rng, 'features', n_templates=nt, n_spikes=nspk, n_channels=nc, subset=sub_f)['inp']
+    t = _store(rng, 'tfeatures', n_templates=nt, n_spikes=nspk, n_channels=nc, subset=sub_t)['inp']
+    if both_subset and f['rows'] == t['rows']:
+        t['rows'] = list(reversed(t['rows'])) if len(t['rows']) > 1 else t['rows']
+    have = have or rng.choice(['both'] * 8 + ['f', 't', 'none'])
+    calls = []
+    for _ in range(rng.randint(2, 5)):
+        which = rng.choice(['f', 't'])
+        st = f if which == 'f' else t
+        held = st['rows'] if st['rows'] is not None else list(range(nspk))
+        ids = _request(rng, nspk, held)
+        if which == 'f':
+            cm = rng.choice(['all', 'perm', 'subset', 'unknown'])
+            chans = (list(range(nc)) if cm == 'all' else rng.sample(range(nc), nc) if cm == 'perm' else
+                     rng.sample(range(nc), rng.randint(0, nc)) if cm == 'subset' else rng.sample(range(nc + 3), rng.randint(1, nc)))
+            calls.append(['f', ids, chans])
+        else:
+            calls.append(['t', ids])
+    if have == 'both' and not ({'f', 't'} <= set(c[0] for c in calls)):
+        # both accessors at least once, the second one asked for spikes of ITS store
+        held_t = t['rows'] if t['rows'] is not None else list(range(nspk))
+        held_f = f['rows'] if f['rows'] is not None else list(range(nspk))
+        calls.append(['t', rng.sample(held_t, rng.randint(1, len(held_t)))])
+        calls.append(['f', rng.sample(held_f, rng.randint(1, len(held_f))), list(range(nc))])
+        if rng.random() < 0.5:
+            calls.reverse()
+    inp = {'n_templates': nt, 'n_channels': nc, 'spike_templates': f['spike_templates'], 'spike_clusters': f['spike_clusters'],
+           'f': ({k: f[k] for k in ('npcs', 'ncl', 'data', 'ind', 'rows')} if have in ('both', 'f') else None),
+           't': ({k: t[k] for k in ('ncl', 'data', 'ind', 'rows')} if have in ('both', 't') else None),
+           'calls': calls, 'ids_dtype': f['ids_dtype'], 'rows_dtype': f['rows_dtype'], 'ind_dtype': f['ind_dtype'],
+           'id_dtype': f['id_dtype'], 'fdtype': f['fdtype']}
+    return {'kind': 'hist', 'inp': inp}
+
+
+def _big(rng, what, n_spikes, stride, req, down=False):
+    """A large subset store given by rule (DESIGN: the abstract input stays small).  req: 'ends' = the first and
+    the last stored spikes (+ unstored ones), 'long' = every stored spike, probed at a few positions."""
+    nt, nc = 4, 6
+    nstored = (n_spikes + stride - 1) // stride
+    rows = [['seg', 0, stride, nstored]] if not down else [['seg', (nstored - 1) * stride, -stride, nstored]]
+    stored = D6.expand(rows)
+    ncl = 2 if what == 'features' else 3
+    universe = nc if what == 'features' else nt
+    ind = [rng.sample(range(universe), ncl) for _ in range(nt)]
+    if req == 'ends':
+        pick = stored[:3] + stored[-3:] + [stored[32767], stored[32768]] if nstored > 32768 else stored[:3] + stored[-3:]
+        pick = pick + ([1, n_spikes - 1] if stride > 1 else [])
+        rng.shuffle(pick)
+        ids = [['lit', pick]]
+        probes = list(range(len(pick)))
+    else:
+        ids = [['seg', stored[-1], stored[-2] - stored[-1], nstored]] if rng.random() < 0.5 else \
+              [['seg', stored[nstored // 2], stored[1] - stored[0], nstored - nstored // 2],
+               ['seg', stored[0], stored[1] - stored[0], nstored // 2]]
+        probes = sorted(set([0, 1, 32767, 32768, 32769, nstored - 1]) & set(range(nstored)))
+    chans = rng.sample(range(nc), nc)
+    return {'kind': 'big', 'inp': {'what': what, 'n_spikes': n_spikes, 'n_templates': nt, 'n_channels': nc, 'npcs': 2,
+                                   'ncl': ncl, 'rows': rows, 'drule': [rng.choice([7, 11, 13]), 3, 5, 8191], 'ind': ind,
+                                   'trule': [rng.choice([1, 3, 5]), rng.randrange(nt)], 'ids': ids, 'chans': chans,
+                                   'probes': probes, 'rows_dtype': rng.choice(['int64', 'int32', 'uint32']),
+                                   'ids_dtype': 'int64'}}
+
+
+def _idx_small(rng):
+    n = rng.randint(0, 6)
+    vals = rng.sample(range(0, 12), n)
+    if vals and rng.random() < 0.3:
+        vals[rng.randrange(n)] = -1                      # from_sparse looks up in np.r_[channel_ids, -1]
+    arr = [rng.choice(vals + [-1, 0, 1, 13, 14, -2, -20]) for _ in range(rng.randint(0, 6))]
+    if rng.random() < 0.6 and vals:
+        arr = [rng.choice(vals) for _ in range(rng.randint(1, 6))]
+    return {'kind': 'idx', 'inp': {'lookup': [['lit', vals]], 'arr': arr, 'dtype': rng.choice(['int64', 'int32', 'uint32' if all(v >= 0 for v in vals + arr) else 'int16'])}}
+
+
+def _idx_big():
+    """lookups longer than 2^15 / 2^16 entries, values beyond 2^15 / 2^16 / 2^17 / 2^22 (the table is as large as
+    the largest value: 2^31 is out of reach, and the int32 cast of the real code is not modelled)."""
+    out = []
+    for lookup, n in (([['seg', 0, 1, 33000]], 33000), ([['seg', 5, 3, 70000]], 70000), ([['seg', 139998, -2, 70000]], 70000),
+                      ([['seg', 0, 2, 40000]], 40000)):
+        lk = D6.expand(lookup)
+        pos = sorted(set([0, 1, 127, 128, 255, 256, 32767, 32768, 32769, 65535, 65536, 65537, n - 1]) & set(range(n)))
+        out.append({'kind': 'idx', 'inp': {'lookup': lookup, 'arr': [lk[q] for q in pos], 'dtype': 'int64'}})
+    out.append({'kind': 'idx', 'inp': {'lookup': [['lit', [2 ** 20, 5, 2 ** 22 + 1, 32768, 65536, 2 ** 17 - 1]]],
+                                       'arr': [2 ** 22 + 1, 5, 65536, 32768, 2 ** 20, 2 ** 17 - 1], 'dtype': 'int64'}})
+    return out
+
+
+def _kspike(rng, kind, k=None):
+    """_compute_pcs / compute_features on k spikes, k not a power of two included (Helmert contrasts)."""
+    k = k or rng.choice([1, 2, 2, 3, 3, 5, 6, 7])
+    nsamp = rng.randint(3, 6)
+    nc = rng.randint(1, 3)
+    w = D6.helmert_waveforms(rng, k, nsamp, nc)
+    return {'kind': kind, 'inp': {'nsamp': nsamp, 'nc': nc, 'w': w, 'dtype': rng.choice(['float32', 'float64', 'int16'])}}
+
+
+def _two(rng, kind):
+    """two spikes, arbitrary small integer waveforms (differences such as (3, 4, 0), (0, 0, 5), (1, 2, 2) included)."""
+    nsamp = rng.randint(3, 6)
+    nc = rng.randint(1, 3)
+    w0 = [[rng.randint(-9, 9) for _ in range(nc)] for _ in range(nsamp)]
+    w1 = [[0] * nc for _ in range(nsamp)]
+    for k in range(nc):
+        r = rng.random()
+        if r < 0.25:
+            d = [3, 4] + [0] * (nsamp - 2)
+        elif r < 0.4:
+            d = [rng.choice([-5, 2, 7])] + [0] * (nsamp - 1)
+        elif r < 0.5:
+            d = [0] * nsamp                                   # identical on this channel: nothing is determined
+        else:
+            d = [rng.randint(-6, 6) for _ in range(nsamp)]
+        rng.shuffle(d)
+        for j in range(nsamp):
+            w1[j][k] = w0[j][k] + d[j]
+    return {'kind': kind, 'inp': {'nsamp': nsamp, 'nc': nc, 'w': [w0, w1], 'dtype': rng.choice(['float32', 'float64', 'int16'])}}
+
+
+def _pca_k(rng, k=None, general=False):
+    """waveform route of get_features with exactly k of the requested spikes stored (k = 1, 2, 3, ...)."""
+    k = 2 if general else (k or rng.choice([1, 2, 2, 3, 5]))
+    nsamp = rng.randint(3, 5)
+    nc = rng.randint(2, 4)
+    wk = _two(rng, 'x')['inp']['w'] if general else D6.helmert_waveforms(rng, k, nsamp, nc)
+    if general:
+        nsamp, nc = len(wk[0]), len(wk[0][0])
+        if nc < 2:
+            return _pca_k(rng, general=True)
+    extra = rng.randint(0, 3)                                  # stored but not requested
+    nspk = k + extra + rng.randint(0, 3)
+    stored = rng.sample(range(nspk), k + extra)
+    if rng.random() < 0.6:
+        stored.sort()
+    req_pos = sorted(rng.sample(range(k + extra), k))          # which stored spikes are requested
+    w = [[[rng.randint(-9, 9) for _ in range(nc)] for _ in range(nsamp)] for _ in range(k + extra)]
+    # the requested stored spikes, taken in increasing id order (the order of intersect1d), carry wk
+    req_ids = sorted(stored[q] for q in req_pos)
+    for l, sp in enumerate(req_ids):
+        w[stored.index(sp)] = wk[l]
+    others = [s_ for s_ in range(nspk) if s_ not in stored]
+    ids = req_ids + rng.sample(others, rng.randint(0, len(others)))
+    rng.shuffle(ids)
+    chans = list(range(nc)) if general else rng.choice([list(range(nc)), rng.sample(range(nc), nc), rng.sample(range(nc), rng.randint(1, nc))])
+    nt = 2
+    return {'kind': 'pca2' if general else 'pca',
+            'inp': {'n_spikes': nspk, 'n_templates': nt, 'n_channels': nc, 'nsamp': nsamp,
+                    'spike_templates': [i % nt for i in range(nspk)], 'w': w, 'stored': stored,
+                    'ids': ids, 'chans': chans, 'wdtype': rng.choice(['float32', 'float64'])}}
+
+
 def _corpus(rng):
     cases = []
     # upstream test_from_sparse example and boundary requests
@@ -249,6 +427,24 @@ def _corpus(rng):
                   dict(subset=True, sparse=False, req='stored')):
             for _ in range(3):
                 cases.append(_store(rng, what, **f))
+    # second seeding round: (m4) both stores are subset stores with different spike-id tables and both accessors
+    # are called on one model object; (m6) exactly two requested spikes on the waveform route
+    h = {'n_templates': 3, 'n_channels': 3, 'spike_templates': [0, 1, 2, 0, 1, 2], 'spike_clusters': None,
+         'f': {'npcs': 2, 'ncl': 2, 'data': [[[111, 112], [121, 122]], [[211, 212], [221, 222]], [[311, 312], [321, 322]]],
+               'ind': [[0, 1], [1, 2], [2, 0]], 'rows': [0, 2, 4]},
+         't': {'ncl': 2, 'data': [[101, 102], [201, 202], [301, 302]], 'ind': [[0, 1], [1, 2], [2, 0]], 'rows': [1, 2, 5]},
+         'calls': [['f', [0, 2, 4], [0, 1, 2]], ['t', [1, 2, 5]], ['f', [4, 0], [2, 0]]],
+         'ids_dtype': 'int64', 'rows_dtype': 'int64', 'ind_dtype': 'uint32', 'id_dtype': 'uint32', 'fdtype': 'float32'}
+    cases.append({'kind': 'hist', 'inp': h})
+    cases.append({'kind': 'hist', 'inp': dict(h, calls=[['t', [5, 1]], ['f', [2, 4, 0], [1, 0, 2]], ['t', [2]]])})
+    cases.append({'kind': 'hist', 'inp': dict(h, f=None, calls=[['f', [0], [0]], ['t', [1, 2]]])})
+    cases.append({'kind': 'hist', 'inp': dict(h, t=None, calls=[['t', [0]], ['f', [2, 0], [0, 1]]])})
+    two = {'n_spikes': 4, 'n_templates': 2, 'n_channels': 2, 'nsamp': 3, 'spike_templates': [0, 1, 0, 1],
+           'w': [[[1, 2], [5, 0], [0, 7]], [[4, 2], [9, 0], [0, 2]], [[3, 3], [3, 3], [3, 3]]], 'stored': [0, 2, 3],
+           'ids': [2, 1, 0], 'chans': [0, 1], 'wdtype': 'float32'}          # differences (3, 4, 0) and (0, 0, -5)
+    cases.append({'kind': 'pca2', 'inp': two})
+    cases.append({'kind': 'pca', 'inp': dict(two, w=[[[1, 2], [5, 0], [0, 7]], [[1, 2], [9, 0], [0, 2]], [[3, 3], [3, 3], [3, 3]]])})
+    cases.append({'kind': 'pca', 'inp': dict(two, ids=[3, 1])})                # a single stored spike: nothing claimed
     return cases
 
 
@@ -262,6 +458,12 @@ def generate(tier, rng):
             cases.append(_store(rng, 'tfeatures'))
         for _ in range(200):
             cases.append(_project(rng))
+        for _ in range(600):
+            cases.append(_hist(rng))
+        for _ in range(100):
+            cases.append(_pca_k(rng))
+            cases.append(_pca_k(rng, general=True))
+            cases.append(_idx_small(rng))
         return cases
     quick = tier == 'quick'
     cases += _fs_exhaustive(tier)
@@ -283,6 +485,32 @@ def generate(tier, rng):
         cases.append(_walsh(rng, 'cf'))
     for _ in range(n_pca):
         cases.append(_pca(rng))
+    # stage 3
+    n_hist, n_k, n_idx = (160, 30, 60) if quick else (2000, 300, 600)
+    for _ in range(n_hist):
+        cases.append(_hist(rng))
+    for _ in range(n_hist // 4):
+        cases.append(_hist(rng, both_subset=True, have='both'))
+    for _ in range(n_k):
+        cases.append(_kspike(rng, 'pcs'))
+        cases.append(_kspike(rng, 'cf'))
+        cases.append(_two(rng, 'pcs2'))
+        cases.append(_two(rng, 'cf2'))
+        cases.append(_pca_k(rng))
+        cases.append(_pca_k(rng, general=True))
+    for _ in range(n_idx):
+        cases.append(_idx_small(rng))
+    cases += _idx_big()
+    # large subset stores (more than 2^15 stored spikes; thorough: more than 2^16)
+    cases.append(_big(rng, 'features', 80000, 2, 'ends'))
+    cases.append(_big(rng, 'tfeatures', 80000, 2, 'ends', down=True))
+    cases.append(_big(rng, 'features', 70000, 2, 'long'))
+    if not quick:
+        cases.append(_big(rng, 'tfeatures', 70000, 2, 'long'))
+        cases.append(_big(rng, 'features', 140000, 2, 'ends'))
+        cases.append(_big(rng, 'features', 140000, 2, 'long', down=True))
+        cases.append(_big(rng, 'tfeatures', 70000, 1, 'long'))
+        cases.append(_big(rng, 'features', 200000, 3, 'ends', down=True))
     return cases
 
 
@@ -354,6 +582,52 @@ def run_case(case):
             return ('one', o)
         finally:
             shutil.rmtree(d, ignore_errors=True)
+    if k == 'hist':
+        d = tempfile.mkdtemp(prefix='c06_', dir=os.environ.get('VT_WORK') or None)
+        try:
+            m = D6.open_model(D6.both_dataset(i), d)
+            out = []
+            for c in i['calls']:                                 # ONE model object for the whole history
+                ids = _as_ids(c[1], i['ids_dtype'])
+                if c[0] == 'f':
+                    r = _guard(lambda: m.get_features(ids, np.array(c[2], dtype=np.int64)))
+                else:
+                    r = _guard(lambda: m.get_template_features(ids))
+                out.append(('none',) if r is None else r if isinstance(r, tuple) else _arr_obs(r, 2))
+            m.close()
+            return ('many', out)
+        finally:
+            shutil.rmtree(d, ignore_errors=True)
+    if k == 'big':
+        d = tempfile.mkdtemp(prefix='c06_', dir=os.environ.get('VT_WORK') or None)
+        try:
+            m = D6.open_model(D6.big_dataset(i), d)
+            ids = np.array(D6.expand(i['ids']), dtype=i['ids_dtype'])
+            if i['what'] == 'features':
+                r = _guard(lambda: m.get_features(ids, np.array(i['chans'], dtype=np.int64)))
+            else:
+                r = _guard(lambda: m.get_template_features(ids))
+            m.close()
+            if isinstance(r, tuple):
+                return ('one', r)
+            o = _arr_obs(r[np.array(i['probes'], dtype=np.int64)], 2)
+            return ('one', ('arr', [int(x) for x in r.shape], o[2]))
+        finally:
+            shutil.rmtree(d, ignore_errors=True)
+    if k == 'idx':
+        from phylib.io.array import _index_of
+        lk = np.array(D6.expand(i['lookup']), dtype=i['dtype'])
+        try:
+            return ('zs', [int(v) for v in _index_of(np.array(i['arr'], dtype=i['dtype']), lk)])
+        except IndexError:
+            return ('zs', None)
+    if k == 'pcs2':
+        from phylib.io.model import _compute_pcs
+        return ('z3', _tok3(_compute_pcs(np.array(i['w'], dtype=i['dtype']), 3)))
+    if k == 'cf2':
+        k = 'cf'
+    if k == 'pca2':
+        k = 'pca'
     if k == 'project':
         from phylib.io.model import _project_pcs
         pcs = np.array(i['pcs'], dtype=i['dtype']).reshape((len(i['pcs']), i['nsamp'], i['nc']))
@@ -406,7 +680,13 @@ def _rows(rows):
 def _obs1(o):
     if o[0] == 'arr':
         return '(OArr %s %s)' % (q.zl(o[1]), _rows(o[2]))
+    if o[0] == 'none':
+        return 'ONone'
     return '(OErr %d)' % o[1]
+
+
+def _segs(segs):
+    return q.lst(segs, lambda s_: '(Seg %s %s %s)' % (q.z(s_[1]), q.z(s_[2]), q.z(s_[3])) if s_[0] == 'seg' else '(Lit %s)' % q.zl(s_[1]))
 
 
 def _t3(a):
@@ -453,9 +733,35 @@ def encode(case, obs):
     elif k == 'cf':
         cin = '(InComputeFeatures %s %s %s)' % (q.nat(i['nsamp']), q.nat(i['nc']), _z3(i['w']))
         cobs = 'ObsCrash' if crash else '(ObsCF %s %s)' % (_t3(obs[1]), _t3(obs[2]))
-    elif k == 'pca':
-        cin = '(InPca %s %s %s %s %s)' % (q.nat(i['nsamp']), _z3(i['w']), q.zl(i['stored']), q.zl(i['ids']), q.zl(i['chans']))
+    elif k in ('pca', 'pca2'):
+        cin = '(%s %s %s %s %s %s)' % ('InPca' if k == 'pca' else 'InPca2', q.nat(i['nsamp']), _z3(i['w']), q.zl(i['stored']),
+                                       q.zl(i['ids']), q.zl(i['chans']))
         cobs = 'ObsCrash' if crash else '(ObsZ3 %s)' % _t3(obs[1])
+    elif k == 'pcs2':
+        cin = '(InPcs2 %s %s %s)' % (q.nat(i['nsamp']), q.nat(i['nc']), _z3(i['w']))
+        cobs = 'ObsCrash' if crash else '(ObsZ3 %s)' % _t3(obs[1])
+    elif k == 'cf2':
+        cin = '(InCF2 %s %s %s)' % (q.nat(i['nsamp']), q.nat(i['nc']), _z3(i['w']))
+        cobs = 'ObsCrash' if crash else '(ObsCF %s %s)' % (_t3(obs[1]), _t3(obs[2]))
+    elif k == 'hist':
+        f, t = i['f'], i['t']
+        ff = 'None' if f is None else '(Some %s)' % q.lst(f['data'], lambda r: q.lst(r, lambda pc: q.lst(pc, lambda v: D.coq_tok(D.tok(v)))))
+        tt = 'None' if t is None else '(Some %s)' % q.lst(t['data'], lambda r: q.lst(r, lambda v: D.coq_tok(D.tok(v))))
+        calls = q.lst(i['calls'], lambda c: '(CallF %s %s)' % (q.zl(c[1]), q.zl(c[2])) if c[0] == 'f' else '(CallT %s)' % q.zl(c[1]))
+        cin = '(InHist %s %s %s %s %s %s %s %s %s %s %s %s)' % (
+            q.nat(f['npcs'] if f else 1), q.nat(f['ncl'] if f else 0), ff, _optzll(f['ind'] if f else None),
+            _optzl(f['rows'] if f else None), q.nat(t['ncl'] if t else 0), tt, _optzll(t['ind'] if t else None),
+            _optzl(t['rows'] if t else None), q.zl(i['spike_templates']), q.nat(i['n_templates']), calls)
+        cobs = 'ObsCrash' if crash else '(ObsMany %s)' % q.lst(obs[1], _obs1)
+    elif k == 'big':
+        cin = '(InBig %s %s %s %s %s %s %s %s %s %s %s %s)' % (
+            q.b(i['what'] == 'tfeatures'), q.nat(i['npcs']), q.nat(i['ncl']), q.z(i['n_spikes']),
+            'None' if i['rows'] is None else '(Some %s)' % _segs(i['rows']), q.zl(i['drule']), _optzll(i['ind']),
+            q.nat(i['n_templates']), q.zl(i['trule']), _segs(i['ids']), q.zl(i['chans']), q.zl(i['probes']))
+        cobs = 'ObsCrash' if crash else '(ObsOne %s)' % _obs1(obs[1])
+    elif k == 'idx':
+        cin = '(InIndexOf %s %s)' % (_segs(i['lookup']), q.zl(i['arr']))
+        cobs = 'ObsCrash' if crash else '(ObsZs %s)' % _optzl(obs[1])
     else:
         raise ValueError(k)
     return cin, cobs
@@ -471,6 +777,14 @@ def nontrivial(case, obs):
     if k in ('features', 'tfeatures'):
         o = obs[1]
         return o[0] == 'arr' and any(t not in (('n', 0, 0), 'nan') for r in o[2] for c in r for t in c)
+    if k == 'big':
+        o = obs[1]
+        return o[0] == 'arr' and any(t not in (('n', 0, 0), 'nan', ['n', 0, 0]) for r in o[2] for c in r for t in c)
+    if k == 'hist':
+        return any(o[0] == 'arr' and any(t not in (('n', 0, 0), 'nan', ['n', 0, 0]) for r in o[2] for c in r for t in c)
+                   for o in obs[1])
+    if k == 'idx':
+        return bool(obs[1])
     return True
 
 
@@ -510,12 +824,41 @@ def dist(case, obs):
             ch = i['chans']
             out.append('features.channels=%s' % ('all' if ch == list(range(nc)) else 'perm' if sorted(ch) == list(range(nc))
                                                  else 'unknown' if any(c >= nc for c in ch) else 'subset'))
-    elif k in ('pcs', 'cf', 'pca'):
-        out.append('%s.n_spikes=%d' % (k, len(i['w'])))
+    elif k in ('pcs', 'cf', 'pca', 'pcs2', 'cf2', 'pca2'):
+        if k in ('pca', 'pca2'):
+            out.append('%s.stored_requested=%s' % (k, _bucket(len(set(i['ids']) & set(i['stored'])))))
+            out.append('%s.stored_not_requested=%s' % (k, bool(set(i['stored']) - set(i['ids']))))
+            out.append('%s.unstored_requested=%s' % (k, bool(set(i['ids']) - set(i['stored']))))
+            out.append('%s.channels=%s' % (k, 'all' if i['chans'] == list(range(i['n_channels'])) else 'other'))
+        else:
+            out.append('%s.n_spikes=%s' % (k, _bucket(len(i['w']))))
         out.append('%s.nsamp=%d' % (k, i['nsamp']))
-        if k == 'pca':
-            out.append('pca.unstored_requested=%s' % (len(i['ids']) > len(i['stored'])))
-            out.append('pca.channels=%s' % ('all' if i['chans'] == list(range(i['n_channels'])) else 'other'))
+    elif k == 'hist':
+        f, t = i['f'], i['t']
+        out.append('hist.stores=%s' % ('both' if f and t else 'f' if f else 't' if t else 'none'))
+        if f and t:
+            rf, rt = f['rows'], t['rows']
+            out.append('hist.row_tables=%s' % ('none' if rf is None and rt is None else 'one' if rf is None or rt is None
+                                               else 'both-same' if rf == rt else 'both-different'))
+        seq = ''.join(c[0] for c in i['calls'])
+        out.append('hist.n_calls=%d' % len(seq))
+        out.append('hist.accessors=%s' % ('both' if {'f', 't'} <= set(seq) else seq[:1]))
+        out.append('hist.first=%s' % seq[:1])
+        for o in obs[1]:
+            out.append('hist.outcome=%s' % o[0])
+    elif k == 'big':
+        rows = D6.expand(i['rows']) if i['rows'] is not None else None
+        out.append('big.what=%s' % i['what'])
+        out.append('big.n_spikes=%d' % i['n_spikes'])
+        out.append('big.n_stored=%s' % (len(rows) if rows is not None else i['n_spikes']))
+        out.append('big.request_len=%d' % len(D6.expand(i['ids'])))
+        out.append('big.outcome=%s' % obs[1][0])
+    elif k == 'idx':
+        lk = D6.expand(i['lookup'])
+        out.append('idx.lookup_len=%s' % ('<=6' if len(lk) <= 6 else '>2^16' if len(lk) > 65536 else '>2^15' if len(lk) > 32768 else 'mid'))
+        out.append('idx.max_value=%s' % ('<2^15' if max(lk + [0]) < 32768 else '<2^16' if max(lk) < 65536 else '<2^17' if max(lk) < 2 ** 17
+                                           else '>=2^17'))
+        out.append('idx.outcome=%s' % ('IndexError' if obs[1] is None else 'ok'))
     return out
 
 
@@ -579,7 +922,46 @@ def shrink(case):
                 j = copy.deepcopy(i)
                 del j[key][-1]
                 yield {'kind': k, 'inp': j}
-    elif k == 'pca':
+    elif k == 'hist':
+        for c in range(len(i['calls'])):
+            if len(i['calls']) > 1:
+                j = copy.deepcopy(i)
+                del j['calls'][c]
+                yield {'kind': k, 'inp': j}
+        for c in range(len(i['calls'])):
+            for a in range(1, len(i['calls'][c])):
+                for e in range(len(i['calls'][c][a])):
+                    j = copy.deepcopy(i)
+                    del j['calls'][c][a][e]
+                    yield {'kind': k, 'inp': j}
+        for key, v in (('ids_dtype', 'int64'), ('rows_dtype', 'int64'), ('ind_dtype', 'uint32'), ('id_dtype', 'uint32'),
+                       ('fdtype', 'float32')):
+            if i[key] != v:
+                j = copy.deepcopy(i)
+                j[key] = v
+                yield {'kind': k, 'inp': j}
+        if i.get('spike_clusters') is not None:
+            j = copy.deepcopy(i)
+            j['spike_clusters'] = None
+            yield {'kind': k, 'inp': j}
+    elif k == 'big':
+        ids = D6.expand(i['ids'])
+        if len(i['probes']) > 1:
+            for c in range(len(i['probes'])):
+                j = copy.deepcopy(i)
+                del j['probes'][c]
+                yield {'kind': k, 'inp': j}
+        if len(i['probes']) == 1 and len(ids) > 1 and len(ids) <= 64:
+            j = copy.deepcopy(i)
+            j['ids'] = [['lit', [ids[i['probes'][0]]]]]
+            j['probes'] = [0]
+            yield {'kind': k, 'inp': j}
+    elif k == 'idx':
+        for c in range(len(i['arr'])):
+            j = copy.deepcopy(i)
+            del j['arr'][c]
+            yield {'kind': k, 'inp': j}
+    elif k in ('pca', 'pca2'):
         others = [s for s in i['ids'] if s not in i['stored']]
         for s in others:
             j = copy.deepcopy(i)
